@@ -418,7 +418,6 @@ func ruleC16Accounting(c *Ctx) {
 	c.Check(okUnused && sawUnused, "c16.accounting", key+"/unused-is-error", c.P.Pos(f.Pos()), "an argument that no placeholder used ends Sanitize with an error", "an unused argument is not reported")
 }
 
-
 // ruleC16StateAgreement: each quoting state of the placeholder lexer treats exactly the characters
 // as special that the consuming tokenizer's scanner for the same construct treats as special.
 func ruleC16StateAgreement(c *Ctx) {
